@@ -26,6 +26,8 @@ PANICKY_SUFFIX = (
     "::copy_nonoverlapping", "::copy", "::write", "::read", "::assume_init", "::from_utf8_unchecked", "::unreachable_unchecked",
     "::abs", "::pow", "::div_euclid", "::rem_euclid", "::next_power_of_two", "::from_digit", "::ilog2", "::ilog10", "::borrow_mut",
     "::with_capacity", "::reserve", "::resize", "::repeat", "::extend_from_within", "::fill_with", "::sort_by_key",
+    # generic_array / cipher block views assert the length of the slice they are given
+    "::from_slice", "::from_mut_slice", "::from_exact_iter", "::clone_from_slice",
 )
 
 
